@@ -120,6 +120,8 @@ struct Broker {
     msg_n: u32,
     /// virtual time before which nothing queued is delivered (slow answers)
     hold_until: u64,
+    /// never answer PINGREQ
+    mute_ping: bool,
 }
 
 pub struct RandomDirector {
@@ -145,6 +147,7 @@ pub struct RandomDirector {
     force_drop: bool,
     reconnected_once: bool,
     now_ms: u64,
+    stalls: u32,
     /// probes run before the benign drain: PUBREL sweep (reveals the pending inbound QoS 2
     /// identifiers) and a QoS 1 publish burst until refusal (reveals the send quota)
     pub probe: bool,
@@ -192,6 +195,7 @@ impl RandomDirector {
             force_drop: false,
             reconnected_once: false,
             now_ms: 0,
+            stalls: 0,
             probe: false,
             probe_step: 0,
             burst_done: false,
@@ -356,6 +360,7 @@ impl RandomDirector {
                         .collect();
                     self.push_ack(rc::suback(11, cp.id, &codes, &[]));
                 }
+                12 if self.broker.mute_ping => {}
                 12 => {
                     if self.benign || !self.chance(self.p.p_no_pingresp) {
                         if !self.benign && self.p.time && self.chance(self.p.p_delay) {
@@ -664,6 +669,12 @@ impl Director for RandomDirector {
     fn pending(&mut self, view: &View) -> PendDec {
         let waiting_read = self.last_pending == 'r' && view.inbound_avail == 0;
         if self.last_pending != 'r' || view.inbound_avail > 0 {
+            // a stalled link: time passes while a packet is half-written
+            if !self.benign && self.p.time && self.stalls < 3 && self.chance(0.25) {
+                self.stalls += 1;
+                return PendDec::Adv(view.now_ms + self.rng.gen_range(1..6000));
+            }
+            self.stalls = 0;
             // a write / flush / read that merely said "not yet": resume, or cancel
             if !self.benign && self.cur_cancel_safe && self.chance(self.p.p_cancel) {
                 return PendDec::Cancel;
@@ -928,6 +939,10 @@ pub enum TwinKind {
     Cancel,
     /// C15: reads and writes are fragmented arbitrarily (down to one byte), nothing is cancelled
     Fragment,
+    /// C15 with a slow link: as Fragment, and up to two stalls (a write stays pending while
+    /// 1.1 - 2.4 s pass); the session uses a 2 s keep-alive, so PINGREQs may appear in the variant
+    /// only (they are left out of the comparison)
+    Stall,
 }
 
 /// Deterministic benign broker + fixed program; only the transport schedule differs between the
@@ -945,6 +960,8 @@ pub struct TwinDirector {
     pub dropped: std::rc::Rc<std::cell::RefCell<Vec<usize>>>,
     connected: bool,
     cancels_left: u32,
+    stalls_left: u32,
+    stall_now: bool,
 }
 
 impl TwinDirector {
@@ -954,6 +971,9 @@ impl TwinDirector {
         inner.benign = true;
         inner.probe = false;
         inner.broker.has_session = false;
+        // with stalls the variant run sends PINGREQs the base run does not; answering them would
+        // shift which poll reads which inbound packet (the stalls are too short for a timeout)
+        inner.broker.mute_ping = kind == TwinKind::Stall;
         Self {
             inner,
             program: program.into(),
@@ -966,6 +986,8 @@ impl TwinDirector {
             dropped,
             connected: false,
             cancels_left: 6,
+            stalls_left: 2,
+            stall_now: false,
         }
     }
 
@@ -990,7 +1012,15 @@ impl Director for TwinDirector {
         }
         match self.kind {
             TwinKind::Base => IoDec::Ready(offered.len()),
-            TwinKind::Cancel | TwinKind::Fragment => {
+            TwinKind::Cancel | TwinKind::Fragment | TwinKind::Stall => {
+                if self.kind == TwinKind::Stall && self.stalls_left > 0 && self.inner.consecutive_pend < 1
+                    && self.inner.chance(0.2)
+                {
+                    self.inner.consecutive_pend += 1;
+                    self.inner.last_pending = 'w';
+                    self.stall_now = true;
+                    return IoDec::Pending;
+                }
                 if self.kind == TwinKind::Cancel && self.inner.consecutive_pend < 1 && self.inner.chance(0.3) {
                     self.inner.consecutive_pend += 1;
                     self.inner.last_pending = 'w';
@@ -1058,6 +1088,11 @@ impl Director for TwinDirector {
             // nothing will ever arrive: end this wait (both runs of the pair do the same)
             return PendDec::Cancel;
         }
+        if self.stall_now {
+            self.stall_now = false;
+            self.stalls_left -= 1;
+            return PendDec::Adv(view.now_ms + self.inner.rng.gen_range(1100..2400));
+        }
         if self.kind == TwinKind::Cancel && self.cancels_left > 0 && self.inner.cur_op != "conn"
             && self.inner.cur_cancel_safe && self.inner.chance(0.45)
         {
@@ -1090,6 +1125,11 @@ impl Director for TwinDirector {
             self.inner.cur_op = "conn".into();
             self.inner.cur_cancel_safe = false;
             return TopDec::Call(Step::Conn { healthy: true });
+        }
+        // the broker's answers enter the inbound stream as soon as they exist, so that their place
+        // relative to the program does not depend on how the transport schedule went
+        if let Some(pkt) = self.inner.broker.outq.pop_front() {
+            return TopDec::Inject(pkt);
         }
         let step = match self.continuation.take() {
             Some(step) => {
